@@ -33,7 +33,11 @@ mod c04;
 #[cfg(kani)]
 mod c05;
 #[cfg(kani)]
+mod c12;
+#[cfg(kani)]
 mod c13;
+#[cfg(kani)]
+mod c17;
 #[cfg(kani)]
 mod c19;
 #[cfg(kani)]
